@@ -251,6 +251,9 @@ impl Buffer {
                 if size.width == 0 || size.width > 1000 {
                     size.width = 80;
                 }
+                // only the width is taken: the declared height must not decide how the content is parsed (erase down, scroll region,
+                // writes below it are dropped by the layer), the loaders set the real height after parsing
+                size.height = self.get_height();
                 self.set_size(size);
                 // the declared height is the length of the picture, not the height of a screen: commands that work on "one screen"
                 // (insert / delete lines, scrolling, cursor jumps) must not be scaled by a number in the file
